@@ -680,7 +680,7 @@ func init() {
 		}
 	}
 	register(&Prop{
-		ID: "C05", Level: "exploration", Run: runC05, Cases: cases(c05SweepCases+16*24, c05SweepCases+16*150), MinNonTrivial: 16,
+		ID: "C05", Level: "exploration", Run: runC05, Cases: cases(c05SweepCases+16*24, c05SweepCases+16*100), MinNonTrivial: 16,
 		Rule: "cases 0..15 = exhaustive sweep of every legal slab size 256..32768 (residue classes mod 16) checking the arithmetic behind 'a full slab holds >= 2 elements'; " +
 			"remaining cases = seeded histories with the hostile size profile (strings at the inline limit -2..+2, at 1/2 and 1/4 of the limit, one-byte and larger-than-slab elements, in-place growth/shrink via Set) on arrays and maps, " +
 			"independent structural walk after every operation (size band of every size-limited slab, element limits, header/child agreement, prefix sums, first digests, sorted-unique digests, sibling links, root index >= 2 children). " +
